@@ -195,6 +195,15 @@ def check(run):
         gamma[:specs[0].size, specs[0].size:] *= 1e4         # the far pair carries the electronic term
         gamma[specs[0].size:, :specs[0].size] *= 1e4
         one_case(run, specs, gamma, pts, npos, np.array([1.0, -1.0]), 0.0, None, "diffuse shells far apart")
+    # the coordinate origin as the only evaluation point (once, twice, integer typed), for a molecule that is not at the origin
+    for n, pts_ in enumerate((np.zeros((1, 3)), np.zeros((2, 3)), np.zeros((1, 3), dtype=int), np.array([[0.0, 0.0, 0.0], [0.0, 0.0, 1e-300]]))):
+        specs = random_basis(rng, 1, 2, lmax=2, exp_hi=20.0, nprim=None)
+        specs = [s_.copy(center=[x + 0.6 for x in s_.center]) for s_ in specs]
+        nb = sum(s.size for s in specs)
+        t = random_transform(rng, nb, rect=True) if n % 2 else None
+        gamma = random_symmetric(rng, nb if t is None else t.shape[0], psd=False)
+        npos = np.array([[0.5, -0.25, 1.0], [-1.0, 0.75, 0.25]])
+        one_case(run, specs, gamma, pts_, npos, np.array([1.0, 6.0]), [0.0, 1.0][n % 2], t, "all points at the origin")
     for n, scale in enumerate((1e-9, 1e-12) if quick else (1e-9, 1e-12, 1e-10, 1e-15)):
         specs = random_basis(rng, 1, 2, lmax=2, exp_hi=20.0, nprim=None)
         nb = sum(s.size for s in specs)
